@@ -20,6 +20,7 @@ type Ctx struct {
 	stats map[string]int
 	queue []string // case lines waiting for execution (isolated families)
 	iso   bool     // run cases in worker subprocesses (panic/spin/oom isolation)
+	only  map[string]bool // keep only these ops (nil: all)
 }
 
 func (c *Ctx) thorough() bool { return c.tier == "thorough" }
@@ -56,6 +57,7 @@ func main() {
 	out := flag.String("out", "", "trace file")
 	replay := flag.String("replay", "", "re-run the cases of a replay/corpus file instead of generating")
 	worker := flag.Bool("worker", false, "internal: execute case lines from stdin, one result line each")
+	ops := flag.String("ops", "", "comma-separated op names to keep (default: all)")
 	flag.Parse()
 	if *worker {
 		workerMain()
@@ -77,6 +79,12 @@ func main() {
 		os.Exit(2)
 	}
 	ctx := &Ctx{w: bufio.NewWriterSize(of, 1<<20), rng: rand.New(rand.NewSource(*seed)), tier: *tier, stats: map[string]int{}, iso: isolated[*fam]}
+	if *ops != "" {
+		ctx.only = map[string]bool{}
+		for _, o := range strings.Split(*ops, ",") {
+			ctx.only[o] = true
+		}
+	}
 	if *replay != "" {
 		replayFile(ctx, *fam, *replay)
 	} else {
@@ -134,6 +142,9 @@ func (c *Ctx) run(op string, args ...interface{}) {
 		toks = append(toks, fmt.Sprint(a))
 	}
 	line := op + " " + strings.Join(toks, " ")
+	if c.only != nil && !c.only[op] {
+		return
+	}
 	if c.iso {
 		c.queue = append(c.queue, line)
 		return
